@@ -47,6 +47,9 @@ def replay(case):
         kept = np.isfinite(res["observed"].astype(float))
         if not np.array_equal(res.loc[kept, "observed"].values, before.loc[kept.values, "observed"].values):
             bad.append("reported observed values differ from the supplied ones")
+        exp_fin = np.isfinite(before["temperature"].astype(float)).values & np.isfinite(before["observed"].astype(float)).values
+        if not np.array_equal(np.isfinite(res["predicted"].astype(float)).values, exp_fin):
+            bad.append("predicted is not finite exactly on rows with a finite temperature and a finite usage value")
         omiss = ~np.isfinite(before["observed"].astype(float))
         if np.isfinite(res.loc[omiss.values, "predicted"].astype(float)).any():
             bad.append("a day with missing usage got a prediction")
